@@ -32,6 +32,8 @@ def c06(tier, seed):
     return cc.codec_check('C06', tier, seed, ['oer'], ['OER'], ['enc', 'dec'], numerics='0')
 
 
+REPLAYERS = {}
+
 CHECKS = {'C08': checks_fuzz.c08, 'C07': checks_extend.c07, 'C06': c06, 'C05': c05, 'C01': c01, 'C03': c03, 'C16': c16}
 
 
